@@ -808,13 +808,35 @@ def representations(A):
     return out
 
 
-def same_path_result(ref, var, tol=1e-10):
-    """ref/var: runs of run_traced.  Identical histories, best weights and final estimator weights."""
+DTYPE_REPS = ("int64", "int32", "bool")     # dtype-changing: other arithmetic routes, rounding differs (1e-9 .. 1e-7 observed)
+
+
+def unclear_margins(run):
+    """True when a discrete decision of the run was close: a selected feature whose group norm is tiny (the proximal
+    step nearly removed it, or nearly did not)."""
+    for e in run["events"]:
+        w = e["w"][2] if len(e["w"]) == 5 else e["w"][0]
+        nrm = np.linalg.norm(w, axis=1)
+        if np.any((nrm != 0) & (nrm < 1e-5)):
+            return True
+    return False
+
+
+def same_path_result(ref, var, tol=1e-10, dtype_changed=False):
+    """ref/var: runs of run_traced.  Layout-only representations: identical histories, best weights and estimator
+    weights at 1e-10.  Dtype-changing ones: 1e-6, and the discrete outputs (n_features, epochs per step) only when the
+    selected-feature margins are clear and both runs made the same early-stopping decisions."""
     if ref["outcome"] != var["outcome"]:
         return f"outcome {var['outcome']} ({var['error']}) instead of {ref['outcome']}"
     if ref["outcome"] != "returned":
         return None
     (bw, g, p, a, nf), (bw2, g2, p2, a2, nf2) = ref["result"], var["result"]
+    if dtype_changed:
+        tol = 1e-6
+        ep = [len(eps) for _, eps in (steps_of(ref["events"])[1] or [])]
+        ep2 = [len(eps) for _, eps in (steps_of(var["events"])[1] or [])]
+        if unclear_margins(ref) or unclear_margins(var) or ep != ep2:
+            return "unclear"        # a discrete decision was within rounding: the two paths may legitimately part
     if [int(v) for v in nf] != [int(v) for v in nf2]:
         return f"n_features {list(nf2)[:8]} instead of {list(nf)[:8]}"
     for nm, u, v in (("geminis", g, g2), ("penalties", p, p2), ("alphas", a, a2)):
@@ -831,8 +853,25 @@ def same_path_result(ref, var, tol=1e-10):
         # weights trained there are ill-conditioned functions of the input; only the discrete outputs and histories are compared
         return None
     for nm, U, V in (("best weights", bw, bw2), ("estimator weights", ref["final_w"], var["final_w"])):
-        if len(U) != len(V) or not all(np.allclose(x, z, rtol=tol, atol=tol, equal_nan=True) for x, z in zip(U, V)):
+        if U is None or V is None or len(U) != len(V) or not all(np.allclose(x, z, rtol=tol, atol=tol, equal_nan=True) for x, z in zip(U, V)):
             return f"{nm} differ"
+    return None
+
+
+def float32_sane(ref, var):
+    """float32 input: values are never compared; only no new exception, same shapes, finite where the reference is."""
+    if ref["outcome"] != var["outcome"]:
+        return f"outcome {var['outcome']} ({var['error']}) instead of {ref['outcome']}"
+    if ref["outcome"] != "returned":
+        return None
+    (bw, g, p, a, nf), (bw2, g2, p2, a2, nf2) = ref["result"], var["result"]
+    if not (len(g2) == len(p2) == len(a2) == len(nf2)):
+        return "history lengths differ"
+    if len(bw) != len(bw2) or any(np.shape(x) != np.shape(z) for x, z in zip(bw, bw2)):
+        return "best weights have other shapes"
+    if np.all(np.isfinite(np.asarray(g, float))) and all(np.all(np.isfinite(x)) for x in bw):
+        if not (np.all(np.isfinite(np.asarray(g2, float))) and np.all(np.isfinite(np.asarray(p2, float))) and all(np.all(np.isfinite(z)) for z in bw2)):
+            return "non-finite results where the float64 run is finite"
     return None
 
 
@@ -868,15 +907,20 @@ def stream_repr(chk, i, rng):
             changed = args_changed(fz, Xv, yv, getattr(est2, "groups", None), pk2)
             if changed:
                 chk.fail(f"path:repr:argument-mutated:{changed}", f"path() modified the caller's `{changed}` ({lbl} {arg})", replay, layer="L3")
-            diff = same_path_result(ref, var)
+            if lbl == "float32":
+                diff = float32_sane(ref, var)
+                if same_path_result(ref, var) is not None:
+                    chk.dist["repr:float32-differs-from-float64"] += 1
+                    note_once(chk, "observation: float32 input is not upcast by path(); results differ from the float64 run of the same values "
+                                   "(from ~1e-7 relative up to a different path)")
+            else:
+                diff = same_path_result(ref, var, dtype_changed=lbl in DTYPE_REPS)
+            if diff == "unclear":
+                chk.dist["repr:dtype-unclear-margin-not-compared"] += 1
+                continue
             if diff is None:
                 continue
             # observations on the unchanged tree (reported to the coordinator, recorded, not alarms)
-            if lbl == "float32":
-                chk.dist["repr:float32-differs-from-float64"] += 1
-                note_once(chk, "observation: float32 input is not upcast by path(); results differ from the float64 run of the same values "
-                               "(from ~1e-7 relative up to a different path)")
-                continue
             if arg == "y" and lbl in ("list", "tuple") and var["outcome"] == "TypeError":
                 chk.dist["repr:y-as-list-TypeError"] += 1
                 note_once(chk, "observation: a precomputed affinity given as a list of lists makes path() raise TypeError in compute_val_score "
